@@ -85,7 +85,11 @@ def run(run):
     for r, n in (("C12.R1", 2), ("C12.R2", 1), ("C12.R3", 2), ("C12.R4", 3), ("C12.R5", 1), ("C12.R6", 1)):
         run.floor(r, n)
     project = run.project
-    ev = sym.make_evaluator(project, T, [])
+    # private steps of the lookups (level-1 selection, best-child selection, stamp extraction) may live in helpers of the module;
+    # the functions the rules speak about stay atomic
+    ev = sym.make_evaluator(project, T, [], inline_local=True,
+                            no_inline=("_toast_tile_containment_score", "_left_of_half_space_score", "_equ_to_xyz", "_div4", "_create_level1_tiles",
+                                       "toast_tile_get_coords", "toast_tile_for_point", "toast_pixel_for_point", "_tile_pixel_grid"))
     def _four_corners(t):
         # a tile has four corners; `corners[:4]` is the same four
         if t[0] == "attr" and t[2] == "corners":
@@ -448,7 +452,8 @@ def run(run):
     (y0, x0), = origins
     xr, yr = ret[1][1], ret[1][2]
     clipped = all(o[0] == "call" and o[1] == ("sym", "max") and num(0) in o[2] for o in (x0, y0)) and \
-        all(e_[0] == "call" and e_[1] == ("sym", "min") and num(256) in e_[2] for (ye, xe) in ends for e_ in (ye, xe))
+        all(e_[0] == "call" and e_[1] == ("sym", "min") and (num(256) in e_[2] or any(".shape" in show(a_) for a_ in e_[2]))      # 256 or the grid's own size
+            for (ye, xe) in ends for e_ in (ye, xe))
 
     def added_back(res, origin):
         # the returned coordinate must be  origin + <fitted offset>: coefficient 1 of the origin at top level
